@@ -251,7 +251,7 @@ fn grid_job<Q: QueueLike>(n: usize, pat: usize) -> Result<JobOut, String> {
         let mut it = q.q_iter_mut();
         let mut j = 0i32;
         while let Some((_, p)) = it.nx() {
-            *p = Prio::new((j * 7919) % 1009);
+            *p = Prio::new(((j as i64 * 7919) % 1009) as i32);
             j += 1;
         }
         drop(it);
